@@ -159,6 +159,19 @@ EXC_KINDS = {
     "unresolvable_nested": [lambda: Holder.NestedError("nested oops")],
 }
 
+class _Unset:
+    def __repr__(self):
+        return "UNSET"
+
+
+UNSET = _Unset()          # marker: do not pass the field to the constructor
+_ids = iter(range(1000, 10 ** 9))
+
+
+def _next_id():
+    return next(_ids)
+
+
 # ------------------------------------------------------------------ typed field kinds: kind -> (annotation, values)
 _UTC = timezone.utc
 TYPED_KINDS = {
@@ -195,6 +208,9 @@ TYPED_KINDS = {
     # typed containers that JSON lacks but the annotation restores
     "tuple_typed": (tuple[int, str], [(1, "a")]),
     "set_typed": (set[int], [{1, 2, 3}, set()]),
+    # a field the caller leaves unset, filled by a default_factory that gives a new value on every call (generated id,
+    # creation stamp): the value the event was built with must come back, not a regenerated one
+    "factory_unset": (int, [UNSET]),
 }
 
 # ------------------------------------------------------------------ dynamic field / result kinds: kind -> values
@@ -262,6 +278,9 @@ def _build(name):
         raise AttributeError(name)
     ns = {"__module__": __name__, "__qualname__": name,
           "__annotations__": {"f_" + k: TYPED_KINDS[k][0] for k in kinds}}
+    if "factory_unset" in kinds:
+        from pydantic import Field
+        ns["f_factory_unset"] = Field(default_factory=_next_id)
     cls = type(name, (BASES[base],), ns)
     setattr(_THIS, name, cls)
     return cls
